@@ -194,6 +194,7 @@ class Tracer(object):
     # -- attach ----------------------------------------------------------------------------------
     def attach(self):
         L = [(self.s, 'before_flush', self.on_before_flush), (self.s, 'after_flush', self.on_after_flush),
+             (self.s, 'before_commit', self.on_before_commit),
              (self.s, 'after_commit', self.on_commit), (self.s, 'after_rollback', self.on_rollback),
              (Mapper, 'after_insert', self.on_insert), (Mapper, 'after_update', self.on_update),
              (Mapper, 'after_delete', self.on_delete),
@@ -238,6 +239,15 @@ class Tracer(object):
     def emit(self, line):
         self.lines.append(line)
         self.events += 1
+        # the recorder's own view of "association statements waiting / current transaction" follows savepoints
+        if line == 'ev spbegin':
+            self._sp_view = getattr(self, '_sp_view', []) + [(getattr(self, 'pending_assoc', 0), getattr(self, 'last_cur', 0))]
+        elif line in ('ev spcommit', 'ev sprollback') and getattr(self, '_sp_view', None):
+            view = self._sp_view.pop()
+            if line == 'ev sprollback':
+                self.pending_assoc, self.last_cur = view
+        elif line in ('ev commit', 'ev rollback'):
+            self._sp_view = []
 
     # -- listeners -------------------------------------------------------------------------------
     def _uow(self):
@@ -277,6 +287,8 @@ class Tracer(object):
         self.in_flush = True
         self.bf_pos = len(self.lines)
         self.bf_cur = new_id
+        if new_id:
+            self.last_cur = new_id
 
     def on_after_flush(self, session, ctx):
         cur = self.cur_tx_id() or 0
@@ -285,22 +297,42 @@ class Tracer(object):
             # the flush itself, e.g. a foreign key nulled because a non-versioned parent was deleted).  The model
             # creates it at the START of such a flush (nothing observable lies in between): the event is inserted
             # right after the `bf` line.
-            self.lines.insert(self.bf_pos, 'ev manualtx %d' % cur)
+            self.lines.insert(self.bf_pos, 'ev latetx %d' % cur)
             self.events += 1
         self.emit('ev af')
         self.in_flush = False
+        if cur:
+            self.pending_assoc = 0      # without a transaction record nothing is written; the statements keep waiting
+        self.last_cur = cur
+
+    def on_before_commit(self, session):
+        """continuum (whose before_commit listener ran first) versions the association statements executed since
+        the last flush - Core statements - at commit, creating the transaction record if there is none yet.  The
+        model is shown that as a late transaction record + an after-flush processing step."""
+        if not getattr(self, 'pending_assoc', 0):      # (fires for the release of a savepoint as well)
+            return
+        cur = self.cur_tx_id() or 0
+        if getattr(self, 'last_cur', 0) == 0 and cur != 0:
+            self.emit('ev latetx %d' % cur)
+        self.emit('ev af')
+        self.pending_assoc = 0
+        self.last_cur = cur
 
     def on_commit(self, session):
         if session.in_nested_transaction():
             self.emit('ev spcommit')
         else:
             self.emit('ev commit')
+            self.pending_assoc = 0
+            self.last_cur = 0
 
     def on_rollback(self, session):
         if session.in_nested_transaction():
             self.emit('ev sprollback')
         else:
             self.emit('ev rollback')
+            self.pending_assoc = 0
+            self.last_cur = 0
 
     def on_insert(self, mapper, connection, target):
         cn = self.cname(target)
@@ -350,10 +382,20 @@ class Tracer(object):
         plist = multiparams if multiparams else [params]
         if plist and isinstance(plist[0], (list, tuple)) and plist[0] and isinstance(plist[0][0], dict):
             plist = plist[0]
+        inline = {}
+        if op == 0:
+            # insert().values(...): the values are part of the statement
+            try:
+                inline = {k: v for k, v in clauseelement.compile().params.items() if v is not None and k in a['cols']}
+            except Exception:
+                inline = {}
         links = []
         for p in plist:
+            p = dict(inline, **(p or {}))
             links.append(fmt_list([dec_val(p[c]) for c in a['cols']]))
         self.emit('ev assoc %d %d %s' % (a['tid'], op, ';'.join(links) or '-'))
+        if not getattr(self, 'in_flush', False):
+            self.pending_assoc = getattr(self, 'pending_assoc', 0) + len(links)
 
     # -- dumps -----------------------------------------------------------------------------------
     def raw(self):
